@@ -47,6 +47,9 @@ def judge(ctx, spec, sx, q, expected, bodies):
                             "status 200 and a body that reads to its end", size=size)
             return "incomplete:" + ext
     want_decl = G.expected_decl(expected)
+    # the numpy expectation travels with the case, so that a replay judges against it too
+    import json as _json
+    case["want"] = {"decl": _json.loads(_json.dumps(want_decl)), "values": G.expected_values(expected)}
     decls = {}
     try:
         name, decls["dds"], rest = G.parse_dds(bodies["dds"]["body"].decode("ascii"))
@@ -73,7 +76,7 @@ def judge(ctx, spec, sx, q, expected, bodies):
     except Exception as e:
         ctx.oracle_fail("the data response does not decode against its own declaration: %r" % (e,), case, repr(e), "XDR values", size=size)
         return "undecodable"
-    if [float(v) for v in vals] != [float(v) for v in want_vals]:
+    if [v if isinstance(v, str) else float(v) for v in vals] != [v if isinstance(v, str) else float(v) for v in want_vals]:
         ctx.oracle_fail("the data response carries other values than the constrained source", case, vals[:30], want_vals[:30], size=size)
         return "values-differ"
     # ASCII: every value, in order, with its index tuple
@@ -87,9 +90,9 @@ def judge(ctx, spec, sx, q, expected, bodies):
                         repr(e), "id line, one line per row-major index tuple, blank line", size=size)
         return "ascii-incomplete"
     printed = [c[2] for c in cells]
-    want_printed = [G.fmt6g(v) for v in vals]
+    want_printed = [G.printed(v) for v in vals]
     if printed != want_printed:
-        ctx.oracle_fail("the ASCII response does not print every value of the data response (to %.6g)", case,
+        ctx.oracle_fail("the ASCII response does not print every value of the data response (numbers to %.6g, strings quoted)", case,
                         printed[:30], want_printed[:30], size=size)
         return "ascii-values"
     return "ok"
@@ -128,6 +131,12 @@ def explore(ctx, tier, search=False):
             kinds = "+".join(sorted({e[0] for e in expected})) or "empty"
             ctx.count((sx, q), bool(q), tag="%s|%s|sel=%s|%s" % (hs, kinds, "yes" if "&" in q or any(c in q for c in "<>=") else "no", tag),
                       sample={"query": q, "verdict": tag})
+            vals_ = G.expected_values(expected)
+            feats = [f for f, on in (("string-values", any(isinstance(v, str) for v in vals_)),
+                                     ("nested-structure", any(e[0] == "st" and any(isinstance(l, tuple) for l in e[2]) for e in expected)),
+                                     ("string-selection", '"' in q),
+                                     ("last-index-beyond-extent", any(int(x) >= 8 for x in __import__("re").findall(r":(\d+)\]", q)))) if on]
+            ctx.tags["feat=" + ("+".join(feats) or "none")] += 1
             for ext in ("dds", "dods", "ascii", "das"):
                 cases.append(("h-handle %s %s %s" % (sx, G.hx("/d." + ext), G.hx(q)), c15.canon_impl(bodies[ext]),
                               {"dataset": sx, "query": q, "ext": ext}))
@@ -143,12 +152,14 @@ def explore(ctx, tier, search=False):
 
 
 def run(ctx):
-    ctx.rule = ("per generated dataset (arrays of rank 0..3, structures of arrays, grids of rank 1..3, flat sequences; "
-                "Int16/UInt16/Int32/UInt32/Float32/Float64, integer-valued) 8 valid CEs: whole variables, hyperslabs "
-                "[i] [a:b] [a:k:b] on arrays, grids, structure and grid members, shorthand member names, sequence column "
-                "projections, ranges and 1..2 selections; non-trivial = non-empty query; distinct by (dataset, query)")
+    ctx.rule = ("per generated dataset (arrays of rank 0..3, structures of arrays and of one nested structure of arrays, grids "
+                "of rank 1..3, flat sequences; Int16/UInt16/Int32/UInt32/Float32/Float64 integer-valued and String: scalars, "
+                "arrays, columns) 8 valid CEs: whole variables, hyperslabs [i] [a:b] [a:k:b] on arrays, grids, structure / "
+                "nested-structure / grid members - also with fewer indices than axes and a last index beyond the extent -, "
+                "shorthand member names, whole nested structures, sequence column projections, ranges and 1..2 selections "
+                "(numbers, double-quoted strings, columns); non-trivial = non-empty query; distinct by (dataset, query)")
     ctx.assumptions = ["'%.6g' is the opaque value formatter shared by pydap's encode() and the oracle; the model prints "
-                       "integers (|v| < 10^6 prints identically)",
+                       "integers (|v| < 10^6 prints identically); strings are ASCII without quote / comma / newline, held as numpy dtype U",
                        "XDR framing of the data response is read by the harness's own decoder (C01/C05 own the codec)",
                        "DAS attribute printing is outside the model (C08); independence of the query is judged on real bodies"]
     ctx.proof_phase()
@@ -186,7 +197,12 @@ def replay(payload):
         _, d3, arest = G.parse_dds(bodies["ascii"]["body"].decode("ascii"))
         vals = G.decode_dods_values(d2, payload_)
         cells = G.parse_ascii_data(d3, arest[46:])
-        ok = d1 == d2 == d3 and [c_[2] for c_ in cells] == [G.fmt6g(v) for v in vals]
+        ok = d1 == d2 == d3 and [c_[2] for c_ in cells] == [G.printed(v) for v in vals]
+        if ok and c.get("want"):
+            import json as _json
+            ok = _json.loads(_json.dumps(d1)) == c["want"]["decl"] and \
+                [v if isinstance(v, str) else float(v) for v in vals] == [v if isinstance(v, str) else float(v) for v in c["want"]["values"]]
+            print("declaration and values equal to the recorded numpy expectation: %s" % ok)
     except Exception as e:
         print("  fails:", e)
         return False
